@@ -64,7 +64,10 @@ ZeroRLC == [H |-> 0, R |-> 0, S |-> "none", timer |-> "none",
             propCh |-> FALSE, prevoteCh |-> FALSE, precommitCh |-> FALSE, finCh |-> FALSE,
             hc |-> "none", cwElapsed |-> FALSE, finalized |-> FALSE, considered |-> {},
             vrv |-> NoView, replaying |-> TRUE, actions |-> FALSE,
-            cm |-> "idle", cmH |-> 0, cmR |-> 0, pcDue |-> FALSE]
+            cm |-> "idle", cmH |-> 0, cmR |-> 0, pcDue |-> FALSE,
+            \* validator sets (ids): of the current height [CurValSet], the one headers of this height must name as next
+            \* [PrevFinNextValSet], and what the driver returned for this height [FinalizedValSet] ("none" until then)
+            curVS |-> "G", nextVS |-> "G", finVS |-> "none"]
 
 -----------------------------------------------------------------------------
 Ctx0(s, st) == [s |-> s, st |-> st, o |-> <<>>, pan |-> "", stop |-> FALSE, needEntrance |-> FALSE, needAdvance |-> "none"]
@@ -73,6 +76,13 @@ Panic(x, why) == IF x.pan = "" THEN [x EXCEPT !.pan = why] ELSE x
 OKx(x) == x.pan = "" /\ ~x.stop
 
 Participating == Me # 0
+
+\* The application changes the validator set at every height: finalizing height h returns FinVS(h), which applies from
+\* h+2 on (same keys, all powers scaled, so the 3-of-4 thresholds stay valid).  ChainVS(h) is what the chain
+\* therefore prescribes for height h; the finalization store holds FinVS(InitH-1) = genesis from the start [Engine.New].
+FinVS(h) == IF h % 2 = 1 THEN "G2" ELSE "G"
+ChainVS(h) == IF h <= InitH + 1 THEN "G" ELSE FinVS(h - 2)
+FinAt(st, h) == IF h = InitH - 1 THEN "G" ELSE IF h \in DOMAIN st.fin THEN st.fin[h] ELSE "missing"
 
 \* a request to the consensus manager.  `timed` requests give up after 100 ms and panic.
 CMRequest(x, kind, arg, timed) ==
@@ -138,7 +148,9 @@ AdvanceRound(x) ==
 \* [advanceHeight]: CycleFinalization, Reset, store write, round entrance
 AdvanceHeight(x) ==
   LET x0 == CancelTimer(x)
-      s1 == [ResetRLC(x0.s, x0.s.H + 1, 0) EXCEPT !.finalized = FALSE]
+      \* [CycleFinalization]: the next height's set is the one headers of this height named; what the driver returned
+      \* for this height becomes the set headers of the next height must name
+      s1 == [ResetRLC(x0.s, x0.s.H + 1, 0) EXCEPT !.finalized = FALSE, !.curVS = x0.s.nextVS, !.nextVS = x0.s.finVS, !.finVS = "none"]
       x1 == Out([x0 EXCEPT !.s = s1, !.st.smhr = <<s1.H, 0>>], [t |-> "write", store |-> "sm", h |-> s1.H, r |-> 0])
   IN Out([x1 EXCEPT !.needEntrance = TRUE], [t |-> "entrance", h |-> s1.H, r |-> 0])
 
@@ -228,7 +240,10 @@ ViewUpdate(x, upd) ==
 
 SignAndSave(x, kind, target) ==
   LET key == <<kind, x.s.H, x.s.R>>
-      x1 == Out(x, [t |-> "sign", kind |-> kind, h |-> x.s.H, r |-> x.s.R, target |-> target])
+      x1 == Out(x, IF kind = "proposal"
+                     THEN \* the proposed header carries the current height's set and the set the next height will use
+                          [t |-> "sign", kind |-> kind, h |-> x.s.H, r |-> x.s.R, target |-> target, vs |-> x.s.curVS, nvs |-> x.s.nextVS]
+                     ELSE [t |-> "sign", kind |-> kind, h |-> x.s.H, r |-> x.s.R, target |-> target])
   IN IF key \in DOMAIN x1.st.actions
        THEN [x1 EXCEPT !.stop = TRUE]             \* DoubleActionError: the state machine stops
        ELSE Out(Out([x1 EXCEPT !.st.actions = (key :> target) @@ @],
@@ -279,8 +294,10 @@ HeightCommitted(x) ==
 Finalized(x, resp) ==
   LET x1 == [x EXCEPT !.s.finalized = TRUE, !.s.finCh = FALSE] IN
   IF resp.h # x.s.H \/ resp.r # x.s.R THEN Panic(x1, "BUG: driver sent height/round differing from current")
-  ELSE IF x.s.H \in x.st.fin THEN [x1 EXCEPT !.stop = TRUE]        \* FinalizationOverwriteError
-  ELSE LET x2 == Out([x1 EXCEPT !.st.fin = @ \cup {x.s.H}], [t |-> "write", store |-> "fin", h |-> x.s.H, r |-> x.s.R])
+  ELSE IF x.s.H \in DOMAIN x.st.fin THEN [x1 EXCEPT !.stop = TRUE]        \* FinalizationOverwriteError
+  ELSE LET \* the returned set is what is stored [SaveFinalization(... rlc.FinalizedValSet ...)]
+           x2 == Out([x1 EXCEPT !.s.finVS = FinVS(x.s.H), !.st.fin = (x.s.H :> FinVS(x.s.H)) @@ @],
+                     [t |-> "write", store |-> "fin", h |-> x.s.H, r |-> x.s.R, vs |-> FinVS(x.s.H)])
        IN IF x2.s.S = "AwaitingFinalization" THEN AdvanceHeight(x2) ELSE x2
 
 \* [handleBlockDataArrival] for data id d at (h, r)
@@ -294,11 +311,14 @@ BlockDataArrival(x, a) ==
 \* finalization; the entrance response is supplied by the environment
 BootPos(st) == LET h0 == IF st.smhr = <<0, 0>> THEN InitH ELSE st.smhr[1]
                    r0 == IF st.smhr = <<0, 0>> THEN 0 ELSE st.smhr[2]
-               IN IF h0 \in st.fin THEN <<h0 + 1, 0>> ELSE <<h0, r0>>
+               IN IF h0 \in DOMAIN st.fin THEN <<h0 + 1, 0>> ELSE <<h0, r0>>
 
 Boot(st, resp) ==
   LET pos == BootPos(st)
-      s0 == [ResetRLC(ZeroRLC, pos[1], pos[2]) EXCEPT !.hc = "open"]
+      \* [sendInitialActionSet]: genesis sets at the initial height, otherwise the finalizations of h-2 and h-1
+      s0 == [ResetRLC(ZeroRLC, pos[1], pos[2]) EXCEPT !.hc = "open",
+                !.curVS = IF pos[1] = InitH THEN "G" ELSE FinAt(st, pos[1] - 2),
+                !.nextVS = IF pos[1] = InitH THEN "G" ELSE FinAt(st, pos[1] - 1)]
       x0 == Out(Ctx0(s0, st), [t |-> "entrance", h |-> pos[1], r |-> pos[2]])
   IN IF resp.kind = "CH"
        THEN Out([x0 EXCEPT !.s.replaying = TRUE, !.s.S = "Catchup"],
